@@ -1009,8 +1009,12 @@ def rule_dataptr_primitives(ctx, R):
             rd = [e for e in p.effects if e[0] == "call" and (cname(e[2]).endswith("ptr::read") or cname(e[2]).endswith("_ptr::read"))]
             if rd and cp:
                 R.check(p.effects.index(rd[0]) < p.effects.index(cp[0]), "C02-R3", "DataPtr::swap_remove|read-before-copy", "the removed value is read before the hole is overwritten", "the copy precedes the read of the removed value", where_of(f), fn=f.key)
-            dr = [e for e in p.effects if e[0] == "call" and (cname(e[2]).endswith("drop_in_place") or cname(e[2]).endswith("mem::drop"))] + [e for e in p.effects if e[0] == "drop" and e[6]]
-            R.check(not dr, "C04-R1", "DataPtr::swap_remove|no-drop", "the removed value is handed to the caller, never dropped here", "swap_remove drops a value itself", where_of(f), fn=f.key)
+            dr = [e for e in p.effects if e[0] == "call" and (cname(e[2]).endswith(("drop_in_place", "mem::drop", "assume_init_drop", "ManuallyDrop::drop")) or cname(e[2]).split("::")[-1].startswith("drop"))] + [e for e in p.effects if e[0] == "drop" and e[6]]
+            for rid_ in ("C04-R1", "C02-R3"):
+                # (C02: the cell vacated by the move still holds the bits of the relocated entity's value: dropping it releases
+                # what that entity goes on using; C04: together with the value handed to the caller that is a second drop)
+                R.check(not dr, rid_, "DataPtr::swap_remove|no-drop", "the removed value is handed to the caller and the vacated cell is only forgotten: nothing is dropped here",
+                        "swap_remove drops a value itself (%s): the removed value belongs to the caller and the vacated last cell is a bitwise copy of a live value" % sorted({cname(e[2]) if e[0] == "call" else "drop" for e in dr}), where_of(f), fn=f.key)
             stores = [e for e in p.effects if e[0] == "store" and e[5] == f.key]
             okst = all(cell(N(("call",) + () if False else e[1][1]), last) if e[1][0] == "deref" else False for e in stores)
             R.check(okst, "C02-R3", "DataPtr::swap_remove|only-marks-last", "besides the copy, only the vacated last cell is written (uninit marker)", "swap_remove also stores to %s" % [show(("load", NL(e[1]), 0))[:80] for e in stores], where_of(f), fn=f.key)
@@ -1251,3 +1255,50 @@ def rule_alloc_discipline(ctx, R):
 
 def describe(atoms):
     return " & ".join(show_atom(a) for a in atoms) or "true"
+
+
+# ----------------------------------------------------------------------------------
+# C02-R7 / C09-R8: what the StorageCanResolve impls do with the resolver's (slot, dense) pair
+# ----------------------------------------------------------------------------------
+def rule_payload_use(ctx, R):
+    """The key resolvers return (slot index, dense index). Everything that reads data or mints a direct handle from that
+    pair must use the *dense* component: resolve_for returns it (it indexes the columns), resolve_direct<Entity> packs it
+    into the direct handle together with the archetype's current version. Slot and dense index coincide until a slot is
+    recycled, so a mix-up passes every test that does not remove a non-last entity first."""
+    n = 0
+    for S in ctx.storages():
+        for k, f in sorted(S.fns.items()):
+            if not k.startswith("StorageCanResolve<") or not k.endswith(("::resolve_for", "::resolve_direct")):
+                continue
+            meth = k.split("::")[-1]
+            keyty = k[len("StorageCanResolve<"):].split(">")[0]
+            ps = ctx.paths(f)
+            key = "%s::%s" % (S.name, k)
+            if ps is None:
+                R.fail("C02-R7", key + "|paths", "path enumeration failed (fail closed)", where_of(f), fn=f.key)
+                continue
+            some = [p for p in ps if p.end == "return" and N(p.ret)[0] == "agg" and N(p.ret)[3] == "Some"]
+            if not some:
+                R.fail("C02-R7", key + "|accepting-path", "no path returning Some(..) found", where_of(f), fn=f.key)
+                continue
+            for p in some:
+                ret = N(p.ret)
+                used = set()
+                for x in subterms(ret):
+                    # (<resolver result> as Continue|Some).0.<K>  -- component K of the resolver's pair
+                    if x[0] == "vfield" and x[1][0] == "vfield" and x[1][2] == "0" and x[1][1][0] == "vdown" and x[1][1][2] in ("Continue", "Some") \
+                            and contains(x[1][1][1], lambda t: t[0] == "call" and ("resolve_entity" in t[1] or "::resolve_direct" in t[1])):
+                        used.add(x[2])
+                n += 1
+                if keyty.startswith("EntityDirect") and meth == "resolve_direct":
+                    # a direct key that resolves is returned as it is (nothing to mint)
+                    ok = contains(ret, lambda t: t == ("arg", 2)) and not used
+                    R.check(ok, "C09-R8", key + "|returns-key", "a resolving direct key is returned unchanged", "resolve_direct for a direct key returns %s; expected the key itself" % show(ret)[:160], where_of(f), fn=f.key)
+                    continue
+                rid = "C09-R8" if meth == "resolve_direct" else "C02-R7"
+                R.check(used == {"1"}, rid, key + "|uses-dense", "built from the dense component of the resolver's (slot, dense) pair only",
+                        "%s builds its result from component(s) %s of the resolver's (slot, dense) pair; expected the dense index (.1) only: with a recycled slot the two differ and another entity is designated" % (key, sorted(used)), where_of(f), fn=f.key)
+                if meth == "resolve_direct":
+                    ver_ok = contains(ret, lambda t: t[0] == "load" and NL(t[1]) == ("field", ("deref", SELF), "version"))
+                    R.check(ver_ok, "C09-R8", key + "|current-version", "the direct handle carries the archetype's current version", "the minted direct handle does not carry self.version: %s" % show(ret)[:160], where_of(f), fn=f.key)
+    R.check(n >= 4, "C02-R7", "payload-use|count", "%d accepting paths of StorageCanResolve impls judged" % n, "only %d found" % n, None)
